@@ -454,3 +454,128 @@ Definition m_trigger (limit : Z) (ops : list op) : option N :=
   trigger _ (m_step limit) (fun s => map (tail_end _) (m_iv s)) m_meta mstate0 ops.
 Definition t_trigger (limit : Z) (ops : list op) : option N :=
   trigger _ (t_step limit) (fun s => map (tail_end _) (t_iv s)) t_meta tstate0 ops.
+
+(* ================= reads issued while the saves started by a Write are still in flight =================
+   ContinuousDirtyPages.saveToStorage removes the list from the intervals synchronously but uploads it in a
+   goroutine; the chunk reaches entry.Chunks only when the upload has completed (pages.f.addChunks at the end
+   of the writer).  FileHandle.Read does not wait for the writers (no writeWaitGroup.Wait): a Read that
+   arrives after Write has returned and before the upload has completed sees the interval lists of the
+   state AFTER the write and the chunks of the state BEFORE it.
+     WriteRead off data roff rlen  =  Write off data; Read roff rlen issued while every save started by
+                                      the Write is still in flight; then the saves complete.
+   The extended observation also carries entry.Attributes.FileSize after every op. *)
+Inductive xop :=
+| XOp (o : op)
+| WriteRead (off : Z) (data : list N) (roff rlen : Z)
+| FlushClose.   (* the real FileHandle.Flush closing a history: FlushData, then doFlush compacts the chunk list
+                   (filer.CompactFileChunks) and sends the entry to the filer (CreateEntry) *)
+
+Inductive xobs :=
+| XObs (ob : obs) (attr : Z)
+| XWriteRead (ow ord : obs) (attr : Z)
+| XClose (ob : obs) (created : list N) (attr : Z).   (* created = the content the entry received by the filer resolves to *)
+
+(* filer.CompactFileChunks keeps the chunks owning at least one visible byte (list order = Mtime order) *)
+Definition chunk_covers (c : chunk) (p : Z) : bool := (fst c <=? p) && (p <? fst c + zlen (snd c)).
+Definition chunk_visible (c : chunk) (later : list chunk) : bool :=
+  existsb (fun i => negb (existsb (fun d => chunk_covers d (fst c + Z.of_nat i)) later)) (seq 0 (length (snd c))).
+Fixpoint compact_chunks (cs : list chunk) : list chunk :=
+  match cs with
+  | [] => []
+  | c :: rest => (if chunk_visible c rest then [c] else []) ++ compact_chunks rest
+  end.
+Definition created_content (m : fmeta) : list N :=
+  let cs := compact_chunks (f_chunks m) in resolve (file_size (f_attr m) cs) cs.
+
+Definition with_chunks (m : fmeta) (cs : list chunk) : fmeta := {| f_attr := f_attr m; f_chunks := cs; f_pin := f_pin m |}.
+Definition with_pin (m : fmeta) (pin : option (list chunk * Z)) : fmeta := {| f_attr := f_attr m; f_chunks := f_chunks m; f_pin := pin |}.
+
+Definition xflat1 (xo : xop) : list op :=
+  match xo with
+  | XOp o => [o]
+  | WriteRead off data roff rlen => [Write off data; Read roff rlen]
+  | FlushClose => [Flush]
+  end.
+Definition xflat (xs : list xop) : list op := flat_map xflat1 xs.
+Definition xobs_flat1 (xb : xobs) : list obs :=
+  match xb with
+  | XObs ob _ => [ob]
+  | XWriteRead ow ord _ => [ow; ord]
+  | XClose ob _ _ => [ob]
+  end.
+Definition xobs_flat (xbs : list xobs) : list obs := flat_map xobs_flat1 xbs.
+
+Section XRun.
+  Variable S : Type.
+  Variable step : S -> op -> S * obs.
+  Variable meta_of : S -> fmeta.
+  Variable set_meta : S -> fmeta -> S.
+  Variable ends_of : S -> list Z.
+
+  (* the state a Read sees while the chunks saved by the step s -> s1 are still being uploaded *)
+  Definition inflight_view (s s1 : S) : S := set_meta s1 (with_chunks (meta_of s1) (f_chunks (meta_of s))).
+  (* did the step s -> s1 start a save? *)
+  Definition inflight (s s1 : S) : bool := negb (chunks_eqb (f_chunks (meta_of s)) (f_chunks (meta_of s1))).
+
+  Definition xstep (s : S) (xo : xop) : S * xobs :=
+    match xo with
+    | XOp o => let '(s', ob) := step s o in (s', XObs ob (f_attr (meta_of s')))
+    | WriteRead off data roff rlen =>
+        let '(s1, ow) := step s (Write off data) in
+        let '(s2, ord) := step (inflight_view s s1) (Read roff rlen) in
+        (* the uploads complete: the chunks of s1 appear; the handle keeps the view cache the Read computed *)
+        (set_meta s1 (with_pin (meta_of s1) (f_pin (meta_of s2))), XWriteRead ow ord (f_attr (meta_of s1)))
+    | FlushClose =>
+        (* the model's state keeps the uncompacted chunk list: FlushClose ends the histories of the check *)
+        let '(s', ob) := step s Flush in (s', XClose ob (created_content (meta_of s')) (f_attr (meta_of s')))
+    end.
+
+  (* the first trigger met along an extended history; k = 2: a Read while a save is in flight *)
+  Fixpoint xtrigger (s : S) (xs : list xop) : option N :=
+    match xs with
+    | [] => None
+    | xo :: xs' =>
+        match xo with
+        | XOp o =>
+            match trig_at (ends_of s) (meta_of s) o with
+            | Some k => Some k
+            | None => xtrigger (fst (xstep s xo)) xs'
+            end
+        | WriteRead off data roff rlen =>
+            let s1 := fst (step s (Write off data)) in
+            if inflight s s1 then Some 2%N
+            else match trig_at (ends_of s1) (meta_of s1) (Read roff rlen) with
+                 | Some k => Some k
+                 | None => xtrigger (fst (xstep s xo)) xs'
+                 end
+        | FlushClose => xtrigger (fst (xstep s xo)) xs'
+        end
+    end.
+End XRun.
+
+Section RunX.
+  Variable S : Type.
+  Variable xstep : S -> xop -> S * xobs.
+  Fixpoint run_x (s : S) (xs : list xop) : list xobs :=
+    match xs with
+    | [] => []
+    | xo :: xs' => let '(s', xb) := xstep s xo in xb :: run_x s' xs'
+    end.
+  Fixpoint exec_x (s : S) (xs : list xop) : S :=
+    match xs with
+    | [] => s
+    | xo :: xs' => exec_x (fst (xstep s xo)) xs'
+    end.
+End RunX.
+
+Definition m_set_meta (s : mstate) (m : fmeta) : mstate := {| m_iv := m_iv s; m_meta := m |}.
+Definition t_set_meta (s : tstate) (m : fmeta) : tstate := {| t_iv := t_iv s; t_tf := t_tf s; t_meta := m |}.
+
+Definition m_xstep (limit : Z) := xstep _ (m_step limit) m_meta m_set_meta.
+Definition t_xstep (limit : Z) := xstep _ (t_step limit) t_meta t_set_meta.
+Definition m_xrun (limit : Z) (xs : list xop) : list xobs := run_x _ (m_xstep limit) mstate0 xs.
+Definition t_xrun (limit : Z) (xs : list xop) : list xobs := run_x _ (t_xstep limit) tstate0 xs.
+Definition m_xtrigger (limit : Z) (xs : list xop) : option N :=
+  xtrigger _ (m_step limit) m_meta m_set_meta (fun s => map (tail_end _) (m_iv s)) mstate0 xs.
+Definition t_xtrigger (limit : Z) (xs : list xop) : option N :=
+  xtrigger _ (t_step limit) t_meta t_set_meta (fun s => map (tail_end _) (t_iv s)) tstate0 xs.
